@@ -36,3 +36,117 @@ def p128(k: int) -> int:
     if k <= 0:
         return 1
     return 128 * p128(k - 1)
+
+
+def plain_frames(P: "seq[tuple[int,bytes]]", k: int) -> bytes:
+    """Wire bytes of the first k packets (type, payload) in plaintext framing (api.proto lines 70-85)."""
+    if k <= 0:
+        return b""
+    return plain_frames(P, k - 1) + b"\x00" + enc_varuint(len(P[k - 1][1])) + enc_varuint(P[k - 1][0]) + P[k - 1][1]
+
+
+def types_nonneg(P: "seq[tuple[int,bytes]]", k: int) -> bool:
+    """Every one of the first k packets has a type number >= 0."""
+    if k <= 0:
+        return True
+    return types_nonneg(P, k - 1) and P[k - 1][0] >= 0
+
+
+def be16(n: int) -> bytes:
+    """16-bit big-endian field; defined only for 0 <= n < 65536."""
+    return bytes((n // 256, n % 256))
+
+
+def fits16(P: "seq[tuple[int,bytes]]", k: int) -> bool:
+    """Types, payload lengths and ciphertext lengths (payload + 4 header + 16 tag) of the first k packets fit 16 bits."""
+    if k <= 0:
+        return True
+    return fits16(P, k - 1) and 0 <= P[k - 1][0] < 65536 and len(P[k - 1][1]) + 20 < 65536
+
+
+# ---------------------------------------------------------------------------------------------------------
+# decoding side (C01): everything is defined from vscan / varacc by structural recursion
+# ---------------------------------------------------------------------------------------------------------
+def varacc(s: bytes, k: int) -> int:
+    """Value accumulated from the first k bytes of s as 7-bit groups, least significant group first
+    (the standard varint value: group i is shifted left by 7*i and OR-ed in)."""
+    if k <= 0:
+        return 0
+    return varacc(s, k - 1) | ((s[k - 1] & 0x7F) << (7 * (k - 1)))
+
+
+def vlen(s: bytes) -> int:
+    """Number of bytes of the varint at the front of s, or 0 if s holds no complete varint."""
+    return vscan(s) + 1
+
+
+def vval(s: bytes) -> int:
+    """Value of the varint at the front of s (-1 if incomplete) - what a varint reader must return."""
+    if vscan(s) < 0:
+        return -1
+    return varacc(s, vscan(s) + 1)
+
+
+def pf_status(b: bytes) -> int:
+    """Front of a non-empty plaintext buffer: 0 = one complete frame, 1 = incomplete (wait), 2 = bad preamble."""
+    if vval(b) != 0:
+        return 2
+    b1 = b[vlen(b):]
+    if vval(b1) == -1:
+        return 1
+    b2 = b1[vlen(b1):]
+    if vval(b2) == -1:
+        return 1
+    b3 = b2[vlen(b2):]
+    if len(b3) < vval(b1):
+        return 1
+    return 0
+
+
+def pf_hdr(b: bytes) -> int:
+    """Header length (preamble + length varint + type varint) of the complete frame at the front of b."""
+    b1 = b[vlen(b):]
+    b2 = b1[vlen(b1):]
+    return vlen(b) + vlen(b1) + vlen(b2)
+
+
+def pf_len(b: bytes) -> int:
+    return vval(b[vlen(b):])
+
+
+def pf_type(b: bytes) -> int:
+    b1 = b[vlen(b):]
+    return vval(b1[vlen(b1):])
+
+
+def pf_payload(b: bytes) -> bytes:
+    return b[pf_hdr(b):pf_hdr(b) + pf_len(b)]
+
+
+def pf_rest(b: bytes) -> bytes:
+    return b[pf_hdr(b) + pf_len(b):]
+
+
+def pf_msgs(b: bytes) -> "seq[tuple[int,bytes]]":
+    """All complete frames at the front of b, greedily, as (type, payload) pairs."""
+    if len(b) == 0 or pf_status(b) != 0:
+        return ()
+    return ((pf_type(b), pf_payload(b)),) + pf_msgs(pf_rest(b))
+
+
+def pf_tail(b: bytes) -> bytes:
+    """What remains of b after all complete frames at its front (the retained partial frame)."""
+    if len(b) == 0 or pf_status(b) != 0:
+        return b
+    return pf_tail(pf_rest(b))
+
+
+def pf_bad(b: bytes) -> bool:
+    """True iff greedy parsing of b stops at a bad preamble."""
+    if len(b) == 0:
+        return False
+    if pf_status(b) == 2:
+        return True
+    if pf_status(b) == 1:
+        return False
+    return pf_bad(pf_rest(b))
